@@ -152,7 +152,7 @@ Section Class.
     = verdict_of_class (size_class_of json_len fields).
   Proof.
     pose proof (check_fields_table_gen struct v json_len type sk sender room
-                  Hstruct Hlenient Hpseudo Hsender Hroomvalid) as (Tr & Tp & To).
+                  Hstruct Hlenient Hpseudo Hroomvalid) as (Tr & Tp & To & _ & _).
     unfold size_class_of.
     destruct ((65536 <? json_len) || existsb (fun f => 255 <? code_points f) fields) eqn:E1.
     - (* refused *)
@@ -174,8 +174,8 @@ Section Class.
         intros k Ek. destruct (N.le_gt_cases (rune_count k) 255) as [L|G]; [exact L|].
         exfalso. apply Hn. right; left. apply opt_over_cp. exists k. auto. }
       destruct (existsb (fun f => 255 <? byte_length f) fields) eqn:E3.
-      + apply Tp; [exact Hnh|]. apply exists_over in E3. exact E3.
-      + apply To. unfold all_within_limits.
+      + apply Tp; [exact Hsender|exact Hnh|]. apply exists_over in E3. exact E3.
+      + apply To; [exact Hsender|]. unfold all_within_limits.
         assert (Hn : ~ (255 < byte_length type \/ opt_over byte_length sk \/ 255 < byte_length sender
                         \/ 255 < byte_length room)).
         { intro H. apply exists_over in H. rewrite H in E3. discriminate. }
@@ -184,3 +184,16 @@ Section Class.
         exfalso. apply Hn. right; left. exists k. auto.
   Qed.
 End Class.
+
+(* the specification's "the sender is a user ID" is the shape the table theorem speaks of *)
+Lemma existsb_colon_mem r : existsb (fun x => x =? 58) r = mem_byte 58 r.
+Proof. induction r as [|x r IH]; [reflexivity|]. cbn. rewrite IH. reflexivity. Qed.
+
+Lemma sender_well_formed_shaped s : sender_well_formed s = true <-> shaped 64 s.
+Proof.
+  unfold sender_well_formed, shaped. destruct s as [|c r].
+  - split; [discriminate|]. intros [_ [r' E]]. discriminate.
+  - rewrite andb_true_iff, existsb_colon_mem, N.eqb_eq. split.
+    + intros [-> H]. split; [cbn; exact H|eauto].
+    + intros [H [r' E]]. inversion E; subst. split; [reflexivity|]. cbn in H. exact H.
+Qed.
